@@ -77,7 +77,8 @@ class Rules(FDE.Rules):
             return -1.0 * self[MaxWorlds].modals[s] * track_count
 
         def group_score(self, target, /) -> float:
-            if target['candidate_score'] > 0:
+            # NB: ``candidate_score`` is None when rank optimization is off.
+            if self.score_candidate(target) > 0:
                 return 1.0
             s = self.sentence(target.node)
             si = s.lhs
